@@ -1,7 +1,7 @@
 (* C04: assembly of the per-family lemmas. *)
 From Coq Require Import List NArith Bool Lia Arith.
 From SNT Require Import Base.Outcome Automata.DfaData Automata.Tokenizer Automata.TokenizerTheorems.
-From SNT Require Import Decoder.EvModel Decoder.Printer Decoder.EvProd Decoder.EvProofs Decoder.EvFamilies Decoder.EvFamilies2.
+From SNT Require Import Decoder.EvModel Decoder.Printer Decoder.EvProd Decoder.EvProofs Decoder.EvFamilies Decoder.EvFamilies2 Decoder.EvXterm.
 From SNT Require Import Gen.ProdDFA Gen.C04Keys.
 Import ListNotations.
 Local Open Scope N_scope.
@@ -20,6 +20,7 @@ Proof.
   unfold prod_wf. intros Hp Hw. apply andb_true_iff in Hw. destruct Hw as [Hwf Hsd].
   destruct r; try discriminate.
   - apply single_literal; [|exact Hsd]. cbn [wf] in Hwf. destruct (lit_lookup prod_key_table w); [discriminate| discriminate].
+  - apply single_xterm, Hwf.
   - apply single_char, Hwf.
   - apply single_kitty, Hwf.
   - apply single_level.
@@ -85,3 +86,8 @@ Proof.
   - unfold prod_denote, denote. rewrite E. reflexivity.
   - apply single_literal; [rewrite E; discriminate| exact Hsd].
 Qed.
+
+Theorem xterm_keys_decode k mods alt_form rest :
+  wf decmode_all prod_key_table (RXterm k mods alt_form) = true ->
+  prod_decode (print (RXterm k mods alt_form) ++ rest) = (EKey k mods :: fst (prod_decode rest), snd (prod_decode rest)).
+Proof. intros H. exact (decode_single _ _ rest (single_xterm k mods alt_form H)). Qed.
